@@ -327,11 +327,11 @@ func (t *Dense) TensorMul(other Tensor, axesA, axesB []int) (retVal *Dense, err 
 	}
 
 	// the magic happens here
-	var rt Tensor
-	if rt, err = Dot(doT, doOther); err != nil {
+	// both operands are matrices by now: multiply them as such. The dispatching Dot would treat
+	// (n,1) and (1,n) as vectors and refuse or mis-shape contractions over axes of extent one
+	if retVal, err = doT.MatMul(doOther); err != nil {
 		return
 	}
-	retVal = rt.(*Dense)
 
 	retShape := BorrowInts(len(retShape1) + len(retShape2))
 	defer ReturnInts(retShape)
